@@ -714,8 +714,13 @@ def plan_c09(tier, seed):
             if extra.startswith("badpath-") and kind == "func" and tier == "quick":
                 continue
             jobs.append(wf("C09", "g8", 2, 1, 2, kind, oracles=["nohang", "c09-unformed"], tier=tier, events_dep=False, extra=extra, id=f"C09-g8-{extra}-{kind}"))
+    # outputs that cannot come into being: a path component is a regular file / the name is too long (the
+    # existence check gets an error other than "no such file"); the process is a LEAF (nothing downstream fails for it)
+    for extra in ("notdir", "longname"):
+        for kind in ("cmd", "func"):
+            jobs.append(wf("C09", "g2", 1, 1, 1, kind, oracles=["nohang", "c09-unformed"], tier=tier, events_dep=False, extra=extra, id=f"C09-g2-{extra}-{kind}"))
     return {"level": "fault_enumeration", "stages": [lambda ctx, prev: jobs],
-            "rule": "every choice of failing task x failure kind {exit before / mid / after writing, killed, declared output missing, run-time panic inside a Go function} + tasks that cannot be formed {empty parameter value, invalid output path (a space, a glob character, a dollar sign, a non-ASCII letter, a non-ASCII digit), missing tag in the command, missing tag / unknown parameter in the output-path pattern}, each under every Mazurkiewicz trace of the concurrently running rest (DPOR closed, delay bound 2 otherwise); non-trivial = distinct (fault case, terminal outcome) pairs in which the fault changed the outcome",
+            "rule": "every choice of failing task x failure kind {exit before / mid / after writing, killed, declared output missing, run-time panic inside a Go function} + tasks that cannot be formed {empty parameter value, invalid output path (a space, a glob character, a dollar sign, a non-ASCII letter, a non-ASCII digit), missing tag in the command, missing tag / unknown parameter in the output-path pattern, an output below a regular file, an over-long output name}, each under every Mazurkiewicz trace of the concurrently running rest (DPOR closed, delay bound 2 otherwise); non-trivial = distinct (fault case, terminal outcome) pairs in which the fault changed the outcome",
             "assumptions": BASE_ASSUMPTIONS + ["failures are injected at the exec seam (command result) or raised by the Go function through scipipe.Failf"]}
 
 
@@ -903,6 +908,13 @@ def plan_c02(tier, seed):
                 ex["cores"] = combo[5]
                 sfx += "-c" + "".join(map(str, combo[5]))
             jobs.append(wf("C02", g, i, 1, m, kind, mode="single", oracles=["clean"], tier=tier, events_dep=False, id=f"C02-list-{g}-i{i}-m{m}-{kind}" + sfx, _list=True, args={"list_outputs": "1"}, **ex))
+        # histories left by a KILLED run: every distinct crash state of two small scenarios (an output may be at its
+        # final path while the temp directory of its task still exists), re-run in place and after cleanup
+        for g, i in (("g2", 1), ("g3", 1)):
+            cj = wf("C02", g, i, 1, 1, "cmd", mode="dpor", oracles=["nohang", "clean"], tier=tier, events_dep=False, crash=True, disk_dep=True, id=f"C02-crash-{g}-i{i}-m1-cmd")
+            cj["_snap"] = True
+            cj["snap_dir"] = os.path.join(ctx["scratch"], "snaps", cj["id"])
+            jobs.append(cj)
         return jobs
     def stage2(ctx, prev):
         jobs = []
@@ -967,8 +979,8 @@ def plan_c02(tier, seed):
     def stage4(ctx, prev):
         # the skip decision walks the task's out-IPs in map order: every other order, for histories of multi-output tasks
         return mo(ctx, [r for r in prev if r["job"].get("pre") and r["job"].get("pre_audit") and "-ref-" in r["job"]["id"]])
-    return {"level": "fault_enumeration", "stages": [stage1, stage2, stage3, stage4],
-            "rule": "histories: every non-empty subset of the workflow's tasks has its outputs pre-placed on disk (reference bytes / arbitrary user bytes / zero bytes, with / without .audit.json) x every Mazurkiewicz trace of the run; plus 'complete run, run again in place'; oracle: no start event for a task with a pre-existing output, (inode, mtime_ns, size, bytes) of every pre-existing file identical before/after, no mutating FS call ever targets it (online monitor in the FS seam), downstream content = reference function of the pre-existing bytes; non-trivial = distinct (history, terminal outcome) pairs",
+    return {"level": "fault_enumeration", "stages": [stage1, stage2, stage3, stage4, recovery_stage("C02", tier, "s", ["nohang", "c02", "c02-seed"], crash=False)],
+            "rule": "(+ histories left by a killed run: every distinct crash state of g2 / g3, re-run in place and after cleanup: a declared output found at its final path is not modified and its task not executed) histories: every non-empty subset of the workflow's tasks has its outputs pre-placed on disk (reference bytes / arbitrary user bytes / zero bytes, with / without .audit.json) x every Mazurkiewicz trace of the run; plus 'complete run, run again in place'; oracle: no start event for a task with a pre-existing output, (inode, mtime_ns, size, bytes) of every pre-existing file identical before/after, no mutating FS call ever targets it (online monitor in the FS seam), downstream content = reference function of the pre-existing bytes; non-trivial = distinct (history, terminal outcome) pairs",
             "assumptions": BASE_ASSUMPTIONS + ["multi-output tasks have all or none of their outputs pre-existing, except in graph g7b where the consumed output alone pre-exists (a partial history whose missing output is consumed downstream makes the consumer fail: C09's concern)", "range-over-map orders: every other order of each site is forced for the g7/g7b histories (delay bound 0/1)"],
             "distinct_nontrivial_fn": lambda rs: sum((r.get("distinct_outcomes") or 0) for r in rs if r["job"].get("pre") or r["job"].get("seed_dir"))}
 
